@@ -232,16 +232,17 @@ type setIn struct {
 }
 
 type state struct {
-	h        *rt.H
-	idx      *labelindex.SelectorAndNamedPortIndex
-	suppress bool
-	acc      map[string]map[string]bool
-	events   []string
-	eps      map[string]*epIn
-	parents  map[string]map[string]string
-	ipsets   map[string]*setIn
-	dead     bool
-	history  []string
+	h         *rt.H
+	idx       *labelindex.SelectorAndNamedPortIndex
+	suppress  bool
+	acc       map[string]map[string]bool
+	events    []string
+	eps       map[string]*epIn
+	parents   map[string]map[string]string
+	ipsets    map[string]*setIn
+	dead      bool
+	history   []string
+	netEvents bool
 }
 
 var protoNum = map[string]int{"tcp": 6, "udp": 17, "sctp": 132}
@@ -339,7 +340,29 @@ func (s *state) render() string {
 	}
 	e := "-"
 	if !s.suppress {
-		e = showSorted(append([]string(nil), s.events...))
+		evs := append([]string(nil), s.events...)
+		if s.netEvents {
+			// ops that rescan several endpoints visit them in Go map order; whether a member shared by
+			// two endpoints is transiently removed and re-added depends on that order, so only the net
+			// callbacks of the op are compared
+			net := map[string]int{}
+			for _, ev := range evs {
+				if ev[0] == '+' {
+					net[ev[1:]]++
+				} else if ev[0] == '-' {
+					net[ev[1:]]--
+				}
+			}
+			evs = nil
+			for k, n := range net {
+				if n > 0 {
+					evs = append(evs, "+"+k)
+				} else if n < 0 {
+					evs = append(evs, "-"+k)
+				}
+			}
+		}
+		e = showSorted(evs)
 	}
 	return fmt.Sprintf("D=%s R=%s C=%s T=%s E=%s", showSorted(d), showSorted(r), showSorted(c), showSorted(t), e)
 }
@@ -549,6 +572,7 @@ func exec(h *rt.H, s *state, op string) (out string) {
 	}
 	s.history = append(s.history, op)
 	s.events = nil
+	s.netEvents = w[0] == "parent" || w[0] == "delparent"
 	defer func() {
 		if r := recover(); r != nil {
 			s.dead = true
